@@ -19,6 +19,12 @@
 //	      deviation stage was reached at all — and must change nothing (`spec.missing`).  The generator
 //	      proposes near misses (choice / case steps left out, a case without its choice, a descendant
 //	      named as a child); a proposal that does name a node is an ordinary target.
+//	(v)   the converse of (iv): a deviation whose target is a node of the FINAL tree of the without-run
+//	      (whatever augment stage grafted it: gen/c08late.go builds targets that only the left-over augment
+//	      stage after FixChoice creates, through implied cases, in chains) is applicable; when every
+//	      deviation of a set names a node (spec.target on the Go dump of the without-run) a reported
+//	      missing-target error — and, when no condition of 7.20.3.2 is broken either, any reported error —
+//	      is a refusal of an applicable deviation (Goyang.Spec.DevTarget.refusedVerdict via `spec.refused`).
 package main
 
 import (
@@ -442,7 +448,7 @@ type stats struct {
 	noModel, fromPath                                                                                               int64
 	evaluated, clean, reportedAsClaimed, unclaimedReported, unclaimedApplied, baseErr, outside, parse, badTypeCases int64
 	targets, framed                                                                                                 int64
-	notInBase                                                                                                       int64
+	notInBase, refusedAsked                                                                                         int64
 	nearProposed, nearNames, nearReported                                                                           int64
 	nearMissing                                                                                                     map[string]int
 	baseErrClass, claimedWhy                                                                                        map[string]int
@@ -797,6 +803,7 @@ func evaluate(cases0 []gen.C08Case, f *lib.Flags, res *lib.Result, st *stats, ve
 		}
 		refused, refusedAsked := "", []string(nil)
 		if goErr && len(p.missing) == 0 && len(it.Devs) > 0 && (cls["deviate-no-target"] || (len(claimed) == 0 && len(unclaimed) == 0)) {
+			st.refusedAsked++
 			refused, refusedAsked = askRefused(it.Devs, base, len(claimed) == 0 && len(unclaimed) == 0, cls["deviate-no-target"])
 		}
 		switch {
@@ -1182,6 +1189,8 @@ func main() {
 		"every way of leaving out choice / case / container steps, a case without its choice, a descendant as a child, x statements that would apply cleanly to the node a generous lookup reaches), " +
 		"unresolvable types, boundary bound values, every ordered pair of kinds on one property in one deviation / two deviations / two modules; random part: generated base sets " +
 		"(harness/gen without deliberate faults) with 1-2 deviating modules x 1-3 deviations x 1-3 deviate statements x 1-3 properties, 30% with the ignore option, one deviation in twenty (one in six of those through a choice or case) turned into a near miss (steps other than the last left out; spec.target on the Go dump of the without-run decides whether it names a node); " +
+		"late targets (gen/c08late.go): a short-hand choice at the top / in a container / in a list / in an rpc input and a chain of 1-3 augmenting modules, each grafting through the implied case the one before left behind (applied only by the left-over augment stage after FixChoice, link i+1 one retry round after link i; names ascending and descending; last link written to the single step), " +
+		"deviation targets = every grafted leaf, leaf-list, container, choice, implied case and the nodes below x the statements of its kind, enumerated, + random sets of the family (1-2 deviating modules x 1-2 deviations, 20% with the ignore option); " +
 		"histories: for every enumerated case with a not-supported statement (among them hand-written witnesses gen/c08hist.go), one in eight of the other enumerated cases, one in three of the random sets with a not-supported statement and one in forty of the others, " +
 		"the same texts are also run fresh under the toggled IgnoreDeviateNotSupported (an ordinary case of its own: model, frame, targets, errors), and on ONE Modules value: Process twice; option toggled with nothing loaded, Process; option back, GetModule; option toggled + StoreUses + a load, Process; " +
 		"a fresh value under the opposite of all three options: base loaded, Process, options changed, deviating modules loaded, Process; a fresh value: all loaded, Process under the opposite options, options changed, Process, toggled again, GetModule - the dump after each last step must be the dump of the fresh run under the options then in force, " +
@@ -1195,6 +1204,8 @@ func main() {
 	res.Distribution["exhaustive_combinations"] = nEx
 	res.Distribution["exhaustive_combinations_evaluated"] = len(st.combos)
 	res.Distribution["random_cases"] = n
+	res.Distribution["random_late_augment_target_cases"] = nLate
+	res.Distribution["refusal_clause_asked(spec.refused)"] = st.refusedAsked
 	res.Distribution["applied_cleanly(frame+targets compared)"] = st.clean
 	res.Distribution["reported(error demanded by the property)"] = st.reportedAsClaimed
 	res.Distribution["rfc_invalid_outside_claim_reported_anyway"] = st.unclaimedReported
